@@ -178,8 +178,16 @@ class View:
                     elif ep['index'] == 0 or ep['reapplied']:
                         w_adv = w_init if w_init is not None else 0.0
                     else:
-                        w_adv = None
-                        und = True
+                        # reset without re-applied initial conditions: the
+                        # live speed is the first sample of the previous run
+                        prev = [e for e in self.epochs
+                                if e['index'] < ep['index'] and
+                                e['dump'] is not None and self.n_valid(e) > 0]
+                        if prev:
+                            w_adv = self.series(prev[-1], N - 1, SPD)[0]
+                        else:
+                            w_adv = None
+                            und = True
                     band_w = 0.0
                     release = False
                     rel_und = False
@@ -206,14 +214,27 @@ class View:
                     und = True
                 elif not engage and held and rel_und:
                     und = True
+                # is "everything at rest" distinguishable from "clamped"?
+                ambiguous = impl and tqN[k] == 0 and (w_adv in (0, None))
                 if und:
                     self.stats['near_threshold_lock'] += 1
-                    ref = impl          # re-synchronise on what happened
+                    # re-synchronise on what happened, if that can be told
+                    ref = None if ambiguous else impl
+                elif engage:
+                    ref = True
+                elif held is None:
+                    # the reference lost track earlier (undecided instant
+                    # with an indistinguishable outcome)
+                    if release:
+                        ref = False
+                    else:
+                        ref = None if ambiguous else impl
+                        und = True
                 else:
-                    ref = bool(engage) or (held and not release)
+                    ref = held and not release
                 out.append({'k': k, 'held': ref, 'impl': impl, 'D_in': D_in,
                             'w_adv': w_adv, 'engage': engage,
-                            'release': release, 'und': und,
+                            'release': release, 'und': und or ref is None,
                             'prev_held': held, 'dt': seg['dt'],
                             'first': first})
                 # the reference continues from its own state unless undecided
